@@ -105,6 +105,20 @@ def cvEval (st : St) (a : KV) : St × String :=
   | .err _ => (st', s!"err val={cur}")
   | .panic s => (st', s!"panic:{panicClass s}")
 
+/-- `cv.evalpair`: two evaluations of the same curve against the same sensor state (the harness suspends the first
+    inside a member's sensor read while the second runs; a curve's `Evaluate` keeps no state between or across calls
+    apart from the published `Value`, so the model is two evaluations; cases with PID members are not generated). -/
+def cvEvalPair (st : St) (a : KV) : St × String :=
+  let id := a.str "id" "c"
+  let now := a.int "now" 0
+  let (tbl1, r1) := evalCurve indef st.sensors now (st.curves.length + 2) st.curves id
+  let (tbl2, r2) := evalCurve indef st.sensors now (st.curves.length + 2) tbl1 id
+  let show_ := fun (r : Res Int) => match r with
+    | .ok v => s!"i{v}"
+    | .err _ => "err"
+    | .panic s => s!"panic:{panicClass s}"
+  ({ st with curves := tbl2 }, s!"a={show_ r1} b={show_ r2}")
+
 def cvAdd (st : St) (a : KV) : St × String :=
   let id := a.str "id" "c"
   let cfg : CurveCfg :=
@@ -376,6 +390,7 @@ def step (st : St) (line : String) : St × String :=
       | "cv.sensor" => cvSensor st a
       | "cv.add" => cvAdd st a
       | "cv.eval" => cvEval st a
+      | "cv.evalpair" => cvEvalPair st a
       | _ => (st, "bad-op")
     | "fan" => opFan st op a
     | "w" => opWorld st op a
